@@ -131,6 +131,27 @@ func (c *Ctx) ruleLifecycle(rule string, want map[string]bool) {
 			chk("acquire", false, fn.Pos(), "no prepare/prepareWithMultiInput call: the method does not acquire an engine")
 			continue
 		}
+		// one request, one instance: the method acquires once and never calls another request method of the
+		// pool while it holds its instance (a nested acquire takes a second instance for one request; with
+		// more than max/2 such requests in flight each holds one and waits for another for ever)
+		nAcq, nested, nestedPos := 0, "", p.prepare.Pos()
+		eachInstrDeep(fn, func(_ *ssa.Function, in ssa.Instruction) {
+			cc := callCommon(in)
+			if cc == nil {
+				return
+			}
+			cal := cc.StaticCallee()
+			if cal == nil || recvName(cal) != "GenginePool" || cal.Pkg == nil || cal.Pkg.Pkg.Path() != pEngine {
+				return
+			}
+			switch n := cal.Name(); {
+			case n == "prepare" || n == "prepareWithMultiInput" || n == "getGengine":
+				nAcq++
+			case strings.HasPrefix(n, "Execute"):
+				nested, nestedPos = n, in.Pos()
+			}
+		})
+		chk("one-acquire", nAcq == 1 && nested == "", nestedPos, "a request method must acquire exactly one instance (%d acquiring call(s)) and must not call another request method of the pool while holding it (%s)", nAcq, orStr(nested, "none"))
 		// Q4: cleared guard dominates the acquire and returns (nil, empty map)
 		okClear := p.clearIf != nil && x.edgeDominated(p.clearIf.Block(), 1)[p.prepare.Block()]
 		if okClear {
